@@ -129,7 +129,7 @@ structure Mount where
   coll : Option Coll := none
   /-- components of the mount's `path` inside the collection -/
   path : Path := []
-deriving Repr
+deriving Repr, DecidableEq
 
 structure Cfg where
   ctrOut : Path
